@@ -113,6 +113,18 @@ func init() {
 			c.Ops = append(c.Ops, SOp{Kind: "reset"}, SOp{Kind: "render", Key: "t_readvars"}, SOp{Kind: "render", Key: "t_rloop_else"})
 			cases = append(cases, c)
 		}
+		// a context that was given NO variable and still has something to clean: a deferred function registered by a
+		// render that then failed (it never ran), an object taken from a pool — Reset and the pool's release drop / settle
+		// them, the next render on the context (or the next user of the pooled context) starts clean
+		for _, pool := range []bool{true, false} {
+			for _, first := range []string{`{%= nope|vdefer(7) %}{% include nosuch %}`, `{%= nope|vdefer(7) %}{%= nope|vacquire(8) %}x{% include nosuch %}`, `{%= nope|vacquire(8) %}`} {
+				c := &RCase{CheckShape: true, Pool: pool, Meta: map[string]any{"no-variables-dirty-context": first}}
+				c.Tpls = append(append([]TplDef(nil), c05Fixed...), TplDef{Key: "t_dirty", Src: first, KeepFmt: true}, TplDef{Key: "t_plain", Src: `hello`, KeepFmt: true})
+				c.Ops = []SOp{{Kind: "render", Key: "t_dirty"}, {Kind: "reset"}, {Kind: "render", Key: "t_plain"}, {Kind: "render", Key: "t_dirty", FailAt: 1}, {Kind: "reset"}, {Kind: "render", Key: "t_plain"}, {Kind: "render", Key: "t_readvars"}}
+				cases = append(cases, c)
+				r.Dist["no-variables-dirty-context"]++
+			}
+		}
 		runSessions(r, cases, func(c *RCase, i int, g, m string) string {
 			if w := outputDiffers(c, i, g, m); w != "" {
 				return "on a reused context: " + w
